@@ -66,7 +66,7 @@ func genVariantModule(r *hx.Rand, npkgs int) []SrcFile {
 		for i := 0; i < nv; i++ {
 			objs = append(objs, fmt.Sprintf("_ = v%d", i), fmt.Sprintf("_ = c%d", i))
 		}
-		objs = append(objs, "_ = t0{}.a", "_ = t0{}.b", "t0{}.m0()", "t0{}.m1()", "var _ t1", "_ = t1{}.a", "t1{}.m0()")
+		objs = append(objs, "_ = t0{}.a", "_ = t0{}.b", "t0{}.m0()", "t0{}.m1()", "var _ t1", "t1{}.m0()", "var _ t3")
 		refs := func(n int, extra []string) string {
 			var b strings.Builder
 			pool := append(append([]string(nil), objs...), extra...)
@@ -78,7 +78,9 @@ func genVariantModule(r *hx.Rand, npkgs int) []SrcFile {
 		var a, bfile strings.Builder
 		a.WriteString("package " + pk + "\n\n")
 		bfile.WriteString("package " + pk + "\n\n")
-		a.WriteString("func F0() {\n" + refs(1+r.Intn(3), nil) + "}\n\n")
+		// t0.a and t2.a are always used; t1.a (same file, other line) and t3.a (other file, same line) never:
+		// the merge key must keep same-named objects apart by file and by line
+		a.WriteString("func F0() {\n\t_ = t0{}.a\n\t_ = t2{}.a\n" + refs(1+r.Intn(3), nil) + "}\n\n")
 		if r.Bool() {
 			a.WriteString("func init() {\n" + refs(r.Intn(3), nil) + "}\n\n")
 		}
@@ -97,6 +99,15 @@ func genVariantModule(r *hx.Rand, npkgs int) []SrcFile {
 			fmt.Fprintf(w, "var v%d int\n\nconst c%d = %d\n\n", i, i, i)
 		}
 		bfile.WriteString("type t0 struct {\n\ta int\n\tb int\n}\n\nfunc (t0) m0() {}\n\nfunc (t0) m1() {\n" + refs(r.Intn(2), nil) + "}\n\n// t1 repeats names of t0 on other lines: the merge key must keep them apart\ntype t1 struct {\n\tx int\n\ta int\n}\n\nfunc (t1) m0() {}\n\n")
+		la, lb := strings.Count(a.String(), "\n"), strings.Count(bfile.String(), "\n")
+		for ; la < lb; la++ {
+			a.WriteString("\n")
+		}
+		for ; lb < la; lb++ {
+			bfile.WriteString("\n")
+		}
+		a.WriteString("type t2 struct {\n\ta int\n}\n")
+		bfile.WriteString("type t3 struct {\n\ta int\n}\n")
 		out = append(out, SrcFile{pk + "/a.go", a.String()}, SrcFile{pk + "/b.go", bfile.String()})
 		hasIn, hasExt := r.Chance(75), r.Chance(50)
 		if hasIn {
